@@ -689,7 +689,7 @@ pub fn run(opts: &Opts) -> Report {
     }
     // well-formed corner cases with fixed answers
     for (src, want) in [
-        ("f''", "s:"),
+        ("f''", "s:_"),
         ("f'{{}}'", "s:7b7d"),
         ("f'{{{1}}}'", "s:7b317d"),
         ("f'a{1}b{2u}c'", "s:6131623263"),
